@@ -70,7 +70,7 @@ def run(ctx):
                         SP.one_case(eng, res, sc2, a2, o2, [], sc2.enum_random(w3, rng), S.HIST_KEYS, "twin references, only the second selected")
             if it % (2 if quick else 1) == 0:
                 for packed, pack_refs in ((False, False), (True, False), (True, True), ("bitmap", False), ("bitmap+loose", True), ("partial", False),
-                                          ("GIT_OBJECT_DIRECTORY", False), ("GIT_ALTERNATE_OBJECT_DIRECTORIES", True), ("objects/info/alternates", False), ("info/grafts", False)):
+                                          ("GIT_OBJECT_DIRECTORY", False), ("GIT_ALTERNATE_OBJECT_DIRECTORIES", True), ("objects/info/alternates", False), ("info/grafts", False), ("GIT_GRAFT_FILE", False)):
                     SP.one_case(eng, res, sc, args, opts, explicit, None, S.HIST_KEYS, "layout", real=True, packed=packed,
                                 pack_refs=pack_refs)
                     nlay += 1
@@ -90,6 +90,13 @@ def run(ctx):
         for perm in itertools.permutations(ftags):
             SP.one_case(eng, res, fan, [], [], [], list(perm) + frest, S.HIST_KEYS, "tag fan-in permutation")
             nperm += 1
+        from props import c05 as _c05
+        for k, n in ((3, 10**19), (2, 2**63 - 1), (4, 2**62 - 1), (7, (2**64 - 1) // 7), (3, 2**32 // 3 + 1)):
+            scr = _c05.repeated_total(k, n)
+            rr = len(scr.objects) - 1
+            for style in ("gitlike", "referent_first", "referrer_first"):
+                SP.one_case(eng, res, scr, [], [], [], scr.enum_random([rr], rng, style=style), S.HIST_KEYS,
+                            "order: one sub-tree of %d one-byte files named %d times (%s)" % (n, k, style))
         SP.wide_cases(eng, res, S.HIST_KEYS, "order", quick, rng)
         SP.scale_cases(eng, res, S.HIST_KEYS, "order", quick, rng)
     finally:
